@@ -1280,7 +1280,7 @@ func (w *wworld) attachRacing(kind string, gi int) *wclient {
 func TestWireRelease(t *testing.T) {
 	evid.Rule("wire (layer C): rapid histories over one path of the in-process server: attach over {RTSP/TCP, RTSP/UDP, ws-rtsp, WSP, HTTP-FLV, ws-flv}, stop(i) by TEARDOWN | disconnect, publish, replacement by a second RECORD session, stream end by publisher disconnect / srv.Unpublish | DELETE /api/v1/streams/{path}, stream end racing an attach, attach after the end; publisher = stream fed directly | RTSP RECORD session. Oracle: clients of an ended stream see their connection closed within the bound, nobody else does, consumer counts follow the reference, the others keep receiving, and connection counters / media.Count() / goroutine profile return to their values before the case. Non-trivial = a stream end with >=2 clients of different protocols attached, or a stop of one client while others keep receiving")
 	evid.Assume("wire: 'promptly' = within 5 s (quick) / 10 s (thorough) on loopback; a miss is reported with the server's counters and a goroutine summary")
-	evid.Checks(250, 3000)
+	evid.Checks(200, 3000)
 	rapid.Check(t, func(t *rapid.T) {
 		pl := genWirePlan(t)
 		runWireCase(t, pl)
